@@ -112,6 +112,9 @@ type dataFlushChecker struct {
 	dbInFlushing        sync.Map     // database name => flush request
 	flushInFlight       atomic.Int32 // current pending in flushing
 	isWatermarkFlushing atomic.Bool  // this flag symbols if it has goroutine in high water-mark flushing
+	// flushWorkers waits the flush workers(the flush job in flight) when stop checker,
+	// if not, the engine closes the databases while the job is flushing them.
+	flushWorkers sync.WaitGroup
 }
 
 // newDataFlushChecker creates the data flush checker
@@ -130,6 +133,15 @@ func newDataFlushChecker(ctx context.Context) DataFlushChecker {
 // Start starts the checker goroutine in background
 func (fc *dataFlushChecker) Start() {
 	if fc.running.CompareAndSwap(false, true) {
+		// start some flush workers
+		workers := config.GlobalStorageConfig().TSDB.FlushConcurrency
+		fc.flushWorkers.Add(workers)
+		for i := 0; i < workers; i++ {
+			go func() {
+				defer fc.flushWorkers.Done()
+				fc.flushWorker()
+			}()
+		}
 		go fc.startCheckDataFlush()
 	}
 }
@@ -138,6 +150,7 @@ func (fc *dataFlushChecker) Start() {
 func (fc *dataFlushChecker) Stop() {
 	if fc.running.CompareAndSwap(true, false) {
 		fc.cancel()
+		fc.flushWorkers.Wait()
 	}
 }
 
@@ -147,10 +160,6 @@ func (fc *dataFlushChecker) startCheckDataFlush() {
 	timer := time.NewTimer(memoryUsageCheckInterval.Load())
 	defer timer.Stop()
 
-	// 2. start some flush workers
-	for i := 0; i < config.GlobalStorageConfig().TSDB.FlushConcurrency; i++ {
-		go fc.flushWorker()
-	}
 	fc.logger.Info("Data flush checker is running",
 		logger.Int32("workers", int32(config.GlobalStorageConfig().TSDB.FlushConcurrency)))
 	defer func() {
